@@ -16,6 +16,8 @@ import (
 	"go.temporal.io/server/common/log/tag"
 	"google.golang.org/grpc/metadata"
 	"google.golang.org/protobuf/proto"
+
+	"github.com/temporalio/s2s-proxy/internal/vhook"
 )
 
 // proxyIDMapping stores the original source shard and task for a given proxy task ID
@@ -243,6 +245,7 @@ func (s *proxyStreamSender) Run(
 
 	s.shardManager.SetRemoteSendChan(s.targetShardID, s.sendMsgChan)
 	defer s.shardManager.RemoveRemoteSendChan(s.targetShardID, s.sendMsgChan)
+	vhook.At("sender.run.afterSetChan", "shard", s.targetShardID, "sender", s)
 
 	registeredAt := s.shardManager.RegisterShard(s.targetShardID)
 	defer s.shardManager.UnregisterShard(s.targetShardID, registeredAt)
@@ -267,6 +270,7 @@ func (s *proxyStreamSender) Run(
 	<-shutdownChan.Channel()
 	// Ensure send loop exits promptly
 	close(s.sendMsgChan)
+	vhook.At("sender.run.afterClose", "shard", s.targetShardID, "sender", s)
 	// Do not block waiting for ack goroutine; it will terminate when stream ends
 }
 
@@ -644,6 +648,7 @@ func (r *proxyStreamReceiver) Run(
 	r.ackChan = make(chan RoutedAck, 100)
 	if r.shardManager != nil {
 		r.shardManager.SetLocalAckChan(r.sourceShardID, r.ackChan)
+		vhook.At("rcv.run.afterSetAck", "shard", r.sourceShardID, "receiver", r)
 		r.shardManager.SetLocalReceiverCancelFunc(r.sourceShardID, cancel)
 		// Register receiver for watermark propagation to late-registering shards
 		r.shardManager.RegisterActiveReceiver(r.sourceShardID, r)
@@ -945,6 +950,7 @@ func (r *proxyStreamReceiver) sendPendingWatermarkToShard(targetShardID history.
 			SourceShard: msg.SourceShard,
 			Resp:        clonedResp,
 		}
+		vhook.At("rcv.pendingwm.afterLookup", "target", targetShardID, "receiver", r)
 		select {
 		case sendChan <- clonedMsg:
 			r.logger.Debug("Sent pending watermark to local shard",
